@@ -90,6 +90,7 @@ func genC10(cfg Config, emit Emit) error {
 		s.Alter = rcptAlter[i%len(rcptAlter)]
 		emit("rcpt", []string{mustJSON(&s)}, s.Alter+"/"+s.Reader, s.Alter != "none")
 	}
+	genRcptRepr(emit)
 	nc, nb := 300, 20
 	if cfg.Thorough() {
 		nc, nb = 6000, 300
@@ -692,4 +693,177 @@ func sharedAnyReader() (receipt.ReceiptReader[ipld.Node, ipld.Node], error) {
 		sharedAnyRdr, sharedAnyErr = receipt.NewReceiptReader[ipld.Node, ipld.Node](anyResultSchema)
 	})
 	return sharedAnyRdr, sharedAnyErr
+}
+
+// ---- results given as typed nodes whose schema does not use the default representation --------------------
+
+type reprOK struct {
+	N      int64
+	Status string
+	Kind   string // enum in the schema
+	Inner  reprInner
+}
+
+type reprInner struct {
+	A int64
+	B *string
+}
+
+var reprSchema = []byte(`type Result union {
+  | ROk "ok"
+  | RErr "error"
+} representation keyed
+type RKind enum {
+  | Created ("c")
+  | Deleted ("d")
+}
+type RInner struct {
+  a Int
+  b optional String
+} representation tuple
+type ROk struct {
+  n Int (rename "count")
+  status String (rename "st")
+  kind RKind
+  inner RInner
+}
+type RErr struct {
+  n Int (rename "count")
+  status String (rename "st")
+  kind RKind
+  inner RInner
+}`)
+
+type reprB struct {
+	v   reprOK
+	typ ipldschema.Type
+}
+
+func (b reprB) ToIPLD() (ipld.Node, error) {
+	v := b.v
+	return ipld.WrapWithRecovery(&v, b.typ)
+}
+
+func init() {
+	execs["rcptrepr"] = guard(execRcptRepr)
+}
+
+func genRcptRepr(emit Emit) {
+	for i := 0; i < 24; i++ {
+		emit("rcptrepr", []string{[]string{"ed0", "rsa0", "wrap2", "ed5"}[i%4], itoa(i)}, "typed-result/renamed-enum-tuple", true)
+	}
+}
+
+// args = [key, variant]
+func execRcptRepr(a []string) Result {
+	pools()
+	sg, err := pickSigner(a[0])
+	if err != nil {
+		return Result{Impl: "skip:key"}
+	}
+	k := atoi(a[1])
+	ts, err := ipldLoad(reprSchema)
+	if err != nil {
+		return Result{Impl: "schema-error:" + err.Error()}
+	}
+	okSide := k%3 != 0
+	val := reprOK{N: int64(k * 7), Status: []string{"done", "", "ünï"}[k%3], Kind: []string{"Created", "Deleted"}[k%2], Inner: reprInner{A: int64(k)}}
+	if k%4 < 2 {
+		s := "b"
+		val.Inner.B = &s
+	}
+	typName := "ROk"
+	if !okSide {
+		typName = "RErr"
+	}
+	alice := edPool[20]
+	inv, err := invocation.Invoke(alice, sg, ucan.NewCapability("test/run", alice.DID().String(), NbMap{F: map[string]any{}}), delegation.WithNonce("repr"), delegation.WithNoExpiration())
+	if err != nil {
+		return Result{Impl: "skip:" + err.Error()}
+	}
+	b := reprB{val, ts.TypeByName(typName)}
+	var res result.Result[reprB, reprB]
+	if okSide {
+		res = result.Ok[reprB, reprB](b)
+	} else {
+		res = result.Error[reprB, reprB](b)
+	}
+	rc, err := receipt.Issue(sg, res, ran.FromInvocation(inv))
+	if err != nil {
+		return Result{Impl: "issue-error:" + err.Error(), Oracle: "fail:a receipt whose result is a typed node (renamed fields, enum, tuple) cannot be issued: " + err.Error()}
+	}
+	// what must be on the wire: the REPRESENTATION of the value
+	inner := []TV{tvInt(val.Inner.A)}
+	if val.Inner.B != nil {
+		inner = append(inner, tvStr(*val.Inner.B))
+	}
+	wantTV := tvMap([]KV{{"count", tvInt(val.N)}, {"st", tvStr(val.Status)}, {"kind", tvStr(map[string]string{"Created": "c", "Deleted": "d"}[val.Kind])}, {"inner", tvList(inner)}})
+	wn, _ := wantTV.node()
+	want := nodeBytes(wn)
+	msg, err := message.Build(nil, []receipt.AnyReceipt{rc})
+	if err != nil {
+		return Result{Impl: "build-error"}
+	}
+	hres, err := response.Encode(msg)
+	if err != nil {
+		return Result{Impl: "encode-error"}
+	}
+	wire, _ := io.ReadAll(hres.Body())
+	back, err := response.Decode(responseOf(wire))
+	if err != nil {
+		return Result{Impl: "decode-error"}
+	}
+	rl, ok := back.Get(inv.Link())
+	if !ok {
+		return Result{Impl: "receipt-not-found"}
+	}
+	var bad []string
+	if rdr, err := sharedAnyReader(); err == nil {
+		r, err := rdr.Read(rl, back.Blocks())
+		if err != nil {
+			bad = append(bad, "untyped read: "+err.Error())
+		} else {
+			o, x := result.Unwrap(r.Out())
+			got := o
+			if !okSide {
+				got = x
+			}
+			if got == nil || !bytes.Equal(nodeBytes(got), want) {
+				bad = append(bad, fmt.Sprintf("the result read back is not the representation of the value issued (got %x, want %x)", nodeBytes(got), want))
+			}
+			if rn, derr := decodeAny(r.Root().Bytes()); derr == nil {
+				ocmN, e1 := rn.LookupByString("ocm")
+				sigN, e2 := rn.LookupByString("sig")
+				if e1 == nil && e2 == nil {
+					sb, _ := sigN.AsBytes()
+					if !sg.Verifier().Verify(nodeBytes(ocmN), signatureOf(sb)) {
+						bad = append(bad, "signature no longer verifies")
+					}
+				}
+			}
+		}
+	}
+	if rdr, err := receipt.NewReceiptReader[reprOK, reprOK](reprSchema); err == nil {
+		r, err := rdr.Read(rl, back.Blocks())
+		if err != nil {
+			bad = append(bad, "typed read with the issuing schema: "+err.Error())
+		} else {
+			o, x := result.Unwrap(r.Out())
+			got := o
+			if !okSide {
+				got = x
+			}
+			same := got.N == val.N && got.Status == val.Status && got.Kind == val.Kind && got.Inner.A == val.Inner.A &&
+				(got.Inner.B == nil) == (val.Inner.B == nil) && (got.Inner.B == nil || *got.Inner.B == *val.Inner.B)
+			if !same {
+				bad = append(bad, fmt.Sprintf("typed read yields another value: %+v vs %+v", got, val))
+			}
+		}
+	} else {
+		bad = append(bad, "typed reader: "+err.Error())
+	}
+	if len(bad) > 0 {
+		return Result{Impl: "changed", Oracle: "fail:C10 typed result: " + bad[0]}
+	}
+	return Result{Impl: "same", Oracle: "ok"}
 }
